@@ -2,7 +2,8 @@
    Property theorems only: each is closed by [exact] of a lemma from Proofs/, with Print Assumptions beneath.
    [mem set n] is the mathematical membership of n in the set the word array denotes (bit n mod 64 of word n / 64). *)
 From Coq Require Import List NArith ZArith Bool Sorted.
-From V Require Import Model.Bits Proofs.BitsBasic Proofs.BitsIter Proofs.BitsBulk.
+From V Require Import Lib.Enc Model.Bits Proofs.BitsBasic Proofs.BitsIter Proofs.BitsBulk Proofs.BitsRefine Proofs.BitsEntry.
+From V Require Run.C16.
 Import ListNotations.
 Local Open Scope N_scope.
 
@@ -53,3 +54,31 @@ Print Assumptions c16_intersect.
 Theorem c16_merge : forall b o m, mem (merge b o) m = mem b m || mem o m.
 Proof. exact merge_spec. Qed.
 Print Assumptions c16_merge.
+
+(* Grow never changes membership or Len; Cap is the least multiple of 64 covering the words allocated so far *)
+Theorem c16_grow_cap_neutral : forall set n,
+  (forall p, mem (grow set n) p = mem set p) /\ len (grow set n) = len set /\ cap (grow set n) = N.max (cap set) (need n).
+Proof. exact grow_cap_neutral. Qed.
+Print Assumptions c16_grow_cap_neutral.
+
+(* Range / All (the double loop, callback returning false at its k-th call; k = 0: never) yield the first k values of what
+   Iter yields; with c16_iter_enumerates: exactly the members, ascending, with early stop *)
+Theorem c16_range_all : forall set k,
+  enumerate_stop set k = match k with O => enumerate set | _ => firstn k (enumerate set) end.
+Proof. exact range_all_spec. Qed.
+Print Assumptions c16_range_all.
+
+(* THE PROPERTY, sequence level: for each of the three types (kind = setz.Bits | setz.Bitmap | dsz.Bits) and EVERY operation
+   sequence over two sets (Add, Remove, Contains, Len, Cap, Grow, Iter, Range/All with early stop, Diff, Intersect, Merge with the
+   other set as operand, Clone into the other set), all observable outputs of the word-array model equal those of the
+   mathematical-set specification (strictly ascending member list, s_insert / s_delete / filter / union; Model/Bits.v s_step).
+   This is exactly what `sub 0` and `sub 1` of Run/C16.v execute. *)
+Theorem c16_bits_refines_set : forall (k : kind) (ops : list op),
+  run k (empty, empty) ops = s_run k (s_empty, s_empty) ops.
+Proof. exact bits_refines_set. Qed.
+Print Assumptions c16_bits_refines_set.
+
+(* ... and therefore on every case of the correspondence run, whatever its integers: model output (sub 0) = specification output (sub 1) *)
+Theorem c16_entry_model_eq_spec : forall args, Run.C16.entry 0 args = Run.C16.entry 1 args.
+Proof. exact c16_entry_eq. Qed.
+Print Assumptions c16_entry_model_eq_spec.
